@@ -25,6 +25,7 @@ LOGCLS = {"BrokenPipeError": "(LIO EPIPE)", "ConnectionResetError": "(LIO ECONNR
           "FileNotFound": "LFileNotFound"}
 PCLASS = {"gopher": "PCBase", "sgopher": "PCBase", "gopherplus": "PCGopherPlus", "sgopherplus": "PCGopherPlus",
           "http": "PCHttp", "https": "PCHttp", "wap": "PCWap", "gemini": "PCGemini", "spartan": "PCSpartan"}
+REF_RELEASED = ("/mail.mbox", "/arch.zip", ".dat", ".dir", ".bak")   # mailbox, archive, shelve index of the archive
 ACT = {"W": "AWrite", "O": "AOpen", "C": "AClose", "R": "AOpenRef", "N": "ANotFound"}
 
 MBOX = ("From alice@example.com Mon Jan  1 00:00:00 2024\nSubject: one\n\nbody one\n\n"
@@ -51,10 +52,11 @@ def make_zip():
     return lat(buf.getvalue())
 
 
-def tree():
+def tree(tier="quick"):
     t = 1_700_000_000
     tr = [
-        {"path": "doc.txt", "data": lat(b"0123456789abcdef" * 640)},          # 10240 bytes: three chunks
+        # 10240 bytes: three chunks of copyto (quick); 1 MiB + 1: 257 chunks (thorough)
+        {"path": "doc.txt", "data": lat(b"0123456789abcdef" * (640 if tier == "quick" else 65536) + (b"" if tier == "quick" else b"x"))},
         {"path": "small.txt", "data": "hello\n"},
         {"path": "doc.txt.abstract", "data": "about doc\nsecond line\n"},
         {"path": "page.html", "data": "<html><head><title>Page</title></head><body>x</body></html>\n"},
@@ -94,7 +96,7 @@ def build_requests(tier):
     for proto in PROTOS:
         secure_variant = proto in ("sgopher", "https")
         for kind, sel, _ in KINDS:
-            if secure_variant and kind not in ("document", "error-page"):
+            if secure_variant and tier == "quick" and kind not in ("document", "error-page"):
                 continue
             if proto in ("gopherplus", "sgopherplus"):
                 forms = [("+", kind), ("!", kind + ":info"), ("$", kind + ":dirinfo")] if kind in ("document", "menu", "error-page") \
@@ -143,6 +145,16 @@ def fixup_discharged(chk):
                and os.path.getmtime(os.path.join(common.COQ, d) + "o") <= os.path.getmtime(vo) + 1e-6 for d in deps):
             n += common.count_obligations([f])[0]
     chk.coverage["discharged"] = n
+    # when an unrelated file of the development fails, common.proofs() re-runs Print
+    # Assumptions for the verdict but does not record its output: record it
+    pa = chk.coverage.get("print_assumptions", {})
+    if getattr(chk, "proof_ok", False) and not pa.get("closed_theorems"):
+        rc, out = common.print_assumptions(chk.prop)
+        closed, axioms = common.parse_assumptions(out)
+        chk.coverage["print_assumptions"] = {"closed_theorems": closed, "axioms": axioms}
+        chk.coverage["trusted_base"] = [t for t in chk.coverage.get("trusted_base", []) if not t.startswith("Print Assumptions")] + [
+            "Print Assumptions for Props/%s.v: %d theorem(s) 'Closed under the global context'; axioms: %s"
+            % (chk.prop, closed, ", ".join(axioms) if axioms else "none")]
 
 
 def run(tier):
@@ -156,7 +168,7 @@ def run(tier):
     groups = {}
     for rq in reqs:
         groups.setdefault(rq["proto"], []).append(rq)
-    jobs = [{"op": "c20_sweep", "tree": tree(), "config": CONFIG, "requests": g, "classes": CLASSES, "every_index": True}
+    jobs = [{"op": "c20_sweep", "tree": tree(tier), "config": CONFIG, "requests": g, "classes": CLASSES, "every_index": True}
             for g in groups.values()]
     res = impl_run_parallel(jobs, chunks=len(jobs))
     entries = []
@@ -198,6 +210,12 @@ def run(tier):
             if cs["fd_gc"]:
                 hit(f"fd-leak:{rq['kind']}", "descriptors still open after the request: " + ", ".join(cs["fd_gc"]))
             elif cs["fd_nogc"]:
+                # the reference-counted resources (mailbox, ZIP archive and its index) may live until the
+                # exception's traceback cycle is collected; a file opened in a with block may not
+                late = [d for d in cs["fd_nogc"] if not d.endswith(REF_RELEASED)]
+                if late:
+                    hit(f"fd-open-until-gc:{rq['kind']}",
+                        "a file of the request is still open when handle() returns (closed only by gc): " + ", ".join(late))
                 nogc_only += 1
             lits.append(coq_case(rq, e, cs))
             index.append((rq, e, cs))
@@ -210,7 +228,7 @@ def run(tier):
                                  "TIMEOUT": "socket.timeout('timed out')"}[cs["cls"]],
                        "escaping_exception": cs["exc"], "records_after_fault": cs["records"], "log_tail": cs["log"],
                        "descriptors_left": cs["fd_gc"], "writes_of_unfaulted_response": e["writes"],
-                       "cases_with_this_finding": len(lst), "tree": "harness/c20.py tree()", "config": CONFIG}, tag=tag)
+                       "cases_with_this_finding": len(lst), "tree": "harness/c20.py tree(tier)", "tier": tier, "config": CONFIG}, tag=tag)
     if shape_problems:
         found = True
         chk.violation({"what": "a request of the fault-free baseline misbehaves (no fault injected)",
@@ -254,7 +272,7 @@ def run(tier):
 def replay(path):
     with open(path) as f:
         rep = json.load(f)
-    job = {"op": "c20_sweep", "tree": tree(), "config": CONFIG, "classes": [rep["error_class"]], "every_index": True,
+    job = {"op": "c20_sweep", "tree": tree(rep.get("tier", "quick")), "config": CONFIG, "classes": [rep["error_class"]], "every_index": True,
            "requests": [{"name": "replay", "data": rep["request_latin1"], "tls": rep["tls"]}]}
     r = impl_run([job])[0]
     if not r["ok"]:
